@@ -1,5 +1,16 @@
 """C20 — operator lifecycle: startup first, fail-fast, cleanup last, bounded exit.
 
+SIGNAL SAFETY.  Some scenarios deliver a real SIGTERM with os.kill(os.getpid(), SIGTERM) to exercise kopf's signal_flag
+path.  The signal is sent ONLY if `sigterm_is_safe(loop)` holds at that instant: (1) the event loop of this very scenario
+has a handler registered for SIGTERM (that is what kopf's spawn_tasks does with loop.add_signal_handler in this process),
+and (2) the process-level handler is asyncio's `_sighandler_noop` — so the default action (termination) is impossible and
+no handler of a supervising process/harness can be hit.  If the guard fails nothing is sent and the scenario is reported
+as `scenario-error` (fail closed, the check keeps running); outside the main thread (where kopf installs no handlers) the
+scenario falls back to the stop flag.  The signal never goes to another pid or a process group; the operator has already
+returned => nothing is sent.  Every World closes its loop (which removes the handlers and restores SIG_DFL) before the
+next one is created.  Delivery is deterministic: the handler only writes to the loop's wake-up socket, and one loop step
+is forced right after os.kill because the stepped loop polls its selector only when stepped.
+
 Real `kopf.operator()` incarnations run in `kv.sim` (stepped virtual time, FakeAPI).  A recorder
 (asyncio task factory + request hook + wrappers around `activities.run_activity`, the ready flag and
 the harness's own stop triggers) yields one globally ordered event log per scenario.  The log is
@@ -14,6 +25,7 @@ import json
 import os
 import pathlib
 import signal
+import threading
 from typing import Any, Callable
 
 from kv import coqio as cq, fakeapi, framework as fw, sim
@@ -238,12 +250,24 @@ class Result:
         self.identity: str | None = None
         self.later_object_handled: bool | None = None
         self.forced = False
+        self.signal_fallback = False
 
 
 def is_discovery(req: fakeapi.Request) -> bool:
     parts = [p for p in req.path.split('/') if p]
     return req.method == 'GET' and (parts in (['api'], ['apis'], ['version']) or (parts[0] == 'api' and len(parts) == 2)
                                     or (parts[0] == 'apis' and len(parts) == 3))
+
+
+def sigterm_is_safe(loop: Any) -> bool:
+    """True iff sending SIGTERM to this very process is harmless and reaches the operator under test: the running loop of
+    THIS scenario has an asyncio handler registered for SIGTERM (done by kopf's spawn_tasks via loop.add_signal_handler),
+    and the process-level disposition is asyncio's no-op Python handler (so the default action 'terminate' cannot happen
+    and no foreign handler of a supervisor is triggered)."""
+    import asyncio.unix_events as ue
+    handlers = getattr(loop, '_signal_handlers', None)
+    return (isinstance(handlers, dict) and signal.SIGTERM in handlers
+            and signal.getsignal(signal.SIGTERM) is getattr(ue, '_sighandler_noop', object()))
 
 
 def run_scenario(sc: dict) -> Result:
@@ -301,8 +325,15 @@ def run_scenario(sc: dict) -> Result:
             elif kind == 'stop' and trig.get('via') == 'signal':
                 # a real SIGTERM to this process: asyncio's handler (installed by spawn_tasks on this loop) sets signal_flag.
                 # The stepped loop only polls its selector when it is stepped, so one step is forced right away.
-                if signal.getsignal(signal.SIGTERM) in (signal.SIG_DFL, signal.SIG_IGN, None):
-                    raise RuntimeError('observation point missing: spawn_tasks installed no SIGTERM handler on the loop')
+                if threading.current_thread() is not threading.main_thread():
+                    # kopf installs no signal handlers outside the main thread ("OS signals are ignored"): use the flag
+                    res.signal_fallback = True
+                    rec.add('stopflag')
+                    inc.stop()
+                    return
+                if not sigterm_is_safe(w.loop):
+                    raise RuntimeError('observation point missing: spawn_tasks installed no SIGTERM handler on this loop '
+                                       '(the signal is NOT sent)')
                 rec.add('signal')
                 os.kill(os.getpid(), signal.SIGTERM)
                 w.loop.step()
@@ -1262,7 +1293,7 @@ def check_scenario(ctx: fw.Ctx, sc: dict, cases: list[fw.Case], label: str = '')
     trig_labels = [i for i, l in enumerate(tr.labels) if l in ('StopFlag', 'Cancel', 'Signal')]
     if tr.result is not None and len(trig_labels) == 1 and res.lingered is None and not sc['trigger'].get('second'):
         prefix = tr.labels[:trig_labels[0] + 1]
-        extra['driven'].append(fw.Case(f'driven_to_return {cq.clist(prefix)} 400', {'scenario': describe(sc), 'labels': prefix}))
+        extra['driven'].append(fw.Case(f'driven_within_mu {cq.clist(prefix)}', {'scenario': describe(sc), 'labels': prefix}))
         ctx.count('internal_tie', 'driven-to-return-after-' + tr.labels[trig_labels[0]])
     ctx.cov['traces_validated_against_impl'] += 1
     ctx.count('labels', 'total', len(tr.labels))
